@@ -4,9 +4,9 @@
 cd "$(dirname "$0")/.." || exit 1
 N=6
 for k in $(seq 1 $N); do git -C /repo worktree remove --force /tmp/cs$k 2>/dev/null; git -C /repo worktree add -q --detach /tmp/cs$k HEAD; done
-ls -d seeded/*/ | awk -v n=$N '{print > "/tmp/reconf." (NR % n + 1)}'
+ls -d ${SEEDDIR:-seeded}/*/ | awk -v n=$N '{print > "/tmp/reconf." (NR % n + 1)}'
 for k in $(seq 1 $N); do
-  ( while read d; do n=$(basename "$d"); timeout 1500 tools/confirm_seed.py "$d" "$n" --netns --wt /tmp/cs$k "$@" 2>&1 | head -1 | cut -c1-260; done < /tmp/reconf.$k ) > /tmp/reconf.out.$k 2>&1 &
+  ( while read d; do n=$(basename "$d"); timeout 1500 tools/confirm_seed.py "$d" "$n" --netns ${EXTRA} --wt /tmp/cs$k "$@" 2>&1 | head -1 | cut -c1-260; done < /tmp/reconf.$k ) > /tmp/reconf.out.$k 2>&1 &
 done
 wait
 cat /tmp/reconf.out.* | sort
